@@ -7,7 +7,7 @@ import engine, specutil
 def all_targets():
     import t_macros
     ts = list(t_macros.TARGETS)
-    for mod in ("t_vm", "t_values", "t_compile", "t_serde", "t_token", "t_details", "t_dispatch", "t_parse", "t_grammar"):
+    for mod in ("t_vm", "t_values", "t_compile", "t_serde", "t_token", "t_details", "t_dispatch", "t_parse", "t_grammar", "t_clock"):
         try:
             m = __import__(mod)
             ts += m.TARGETS
